@@ -1,11 +1,861 @@
-//! C10 — check not built yet.
-use mc_core::Args;
-use serde_json::Value;
+//! C10 — address strings: parsing and encoding are inverse and enforce ZIP 316.
+//!
+//! Three exhaustive sweeps, all driving the real code in /repo:
+//!
+//! 1. Unified containers. Every typecode sequence of length 0..=4 over the typecode alphabet
+//!    (one symbol per arm of `Typecode::try_from` plus the CompactSize width boundaries) x every
+//!    combination of item-length variants {correct, -1, +1, 0} for the known typecodes x container
+//!    {Address, Ufvk, Uivk} x 3 networks x padding {right, other network's HRP, one bit off (2 places)},
+//!    rendered to a string by an independent encoder (`refenc`: own CompactSize, own F4Jumble from the
+//!    ZIP 316 text, own Bech32m). Oracle: the ZIP 316 well-formedness predicate written from the spec.
+//!    Plus: encoding deviations (non-canonical CompactSize, declared length != carried bytes, trailing
+//!    bytes), an unknown-item length lattice, the F4Jumble / Bech32 size limits, and the constructor
+//!    `try_from_items` on every sequence.
+//! 2. F4Jumble: every length in a range plus the domain edges x 5 message patterns against the
+//!    independent implementation, both compositions, all four entry points.
+//! 3. Strings: for every address kind x network a seed; every single-character substitution, every
+//!    truncation, wrong checksum variant, wrong prefix, whitespace, case, non-canonical Bech32 padding;
+//!    driven through `ZcashAddress`, `zcash_keys::address::Address` and the `AddressCodec` impls.
 
-pub fn replay(_kind: &str, _case: &Value) -> Result<(), String> {
-    Err("C10: check not built".into())
+use mc_core::{catch, Args, Run, SplitMix, Tier};
+use rayon::prelude::*;
+use serde_json::{json, Value};
+use std::collections::BTreeMap;
+use zcash_address::unified::{self, Container, Encoding, Item};
+use zcash_protocol::consensus::NetworkType;
+
+mod refenc;
+mod strings;
+
+use refenc::Variant;
+
+// ---------------------------------------------------------------------------------------------
+// Tables written from ZIP 316 (not taken from the code under test)
+// ---------------------------------------------------------------------------------------------
+
+pub const KINDS: [&str; 3] = ["address", "ufvk", "uivk"];
+pub const NETS: [&str; 3] = ["main", "test", "regtest"];
+const HRPS: [[&str; 3]; 3] = [["u", "utest", "uregtest"], ["uview", "uviewtest", "uviewregtest"], ["uivk", "uivktest", "uivkregtest"]];
+const MAX_TYPECODE: u64 = 0x0200_0000;
+
+pub fn hrp(kind: usize, net: usize) -> &'static str {
+    HRPS[kind][net]
+}
+pub fn net_type(net: usize) -> NetworkType {
+    [NetworkType::Main, NetworkType::Test, NetworkType::Regtest][net]
 }
 
-pub fn run(_args: &Args) -> i32 {
-    mc_core::machinery_error("C10: check not built")
+/// `Some(Some(n))`: known typecode whose item is exactly n bytes in this container;
+/// `Some(None)`: known typecode that must not occur in this container (P2SH in a viewing key);
+/// `None`: not a known typecode.
+fn known_len(kind: usize, tc: u64) -> Option<Option<usize>> {
+    match (kind, tc) {
+        (0, 0) | (0, 1) => Some(Some(20)),
+        (0, 2) | (0, 3) => Some(Some(43)),
+        (1, 0) | (2, 0) => Some(Some(65)),
+        (1, 1) | (2, 1) => Some(None),
+        (1, 2) => Some(Some(128)),
+        (1, 3) => Some(Some(96)),
+        (2, 2) | (2, 3) => Some(Some(64)),
+        _ => None,
+    }
+}
+
+/// Length carried by an unknown item in the main sweep (a function of the typecode, so that the
+/// CompactSize width boundaries of the *length* field are hit without another product dimension).
+fn unknown_default_len(tc: u64) -> usize {
+    match tc {
+        4 => 32,
+        0xfc => 252,
+        0xfd => 2,
+        0xffff => 0,
+        0x10000 => 7,
+        0x0200_0000 => 253,
+        _ => 1,
+    }
+}
+
+// ---------------------------------------------------------------------------------------------
+// Container cases
+// ---------------------------------------------------------------------------------------------
+
+#[derive(Clone, Debug, PartialEq, Eq)]
+pub struct ItemSpec {
+    pub tc: u64,
+    /// bytes carried
+    pub len: usize,
+    /// length declared in the CompactSize field (== len unless the case is a deviation)
+    pub declared: u64,
+    /// CompactSize width used for the typecode / length (0 = canonical)
+    pub tc_w: usize,
+    pub len_w: usize,
+}
+
+impl ItemSpec {
+    pub fn plain(tc: u64, len: usize) -> ItemSpec {
+        ItemSpec { tc, len, declared: len as u64, tc_w: 0, len_w: 0 }
+    }
+    fn data(&self, idx: usize) -> Vec<u8> {
+        (0..self.len).map(|k| ((k * 7 + idx * 59 + (self.tc as usize % 251) * 13 + 1) % 255 + 1) as u8).collect()
+    }
+    fn raw(&self, idx: usize) -> Option<Vec<u8>> {
+        let mut o = if self.tc_w == 0 { refenc::compact_size(self.tc) } else { refenc::compact_size_width(self.tc, self.tc_w)? };
+        o.extend(if self.len_w == 0 { refenc::compact_size(self.declared) } else { refenc::compact_size_width(self.declared, self.len_w)? });
+        o.extend(self.data(idx));
+        Some(o)
+    }
+    fn deviates(&self) -> bool {
+        self.declared != self.len as u64
+            || (self.tc_w != 0 && self.tc_w != refenc::compact_size(self.tc).len())
+            || (self.len_w != 0 && self.len_w != refenc::compact_size(self.declared).len())
+    }
+}
+
+#[derive(Clone, Debug)]
+pub struct Spec {
+    pub kind: usize,
+    pub net: usize,
+    /// 0 right; 1 padding of another network's HRP; 2 last padding bit flipped; 3 first bit after the HRP flipped
+    pub pad: usize,
+    pub items: Vec<ItemSpec>,
+    /// bytes appended after the last item (before the padding)
+    pub trailing: Vec<u8>,
+}
+
+impl Spec {
+    fn to_json(&self) -> Value {
+        json!({
+            "kind": KINDS[self.kind], "net": NETS[self.net], "pad": self.pad,
+            "items": self.items.iter().map(|i| json!([i.tc, i.len, i.declared, i.tc_w, i.len_w])).collect::<Vec<_>>(),
+            "trailing": hex::encode(&self.trailing),
+        })
+    }
+    fn from_json(v: &Value) -> Result<Spec, String> {
+        let pos = |arr: &[&str], s: &Value| arr.iter().position(|x| Some(*x) == s.as_str()).ok_or_else(|| format!("bad field {s}"));
+        let items = v["items"]
+            .as_array()
+            .ok_or("items")?
+            .iter()
+            .map(|i| {
+                let g = |k: usize| i[k].as_u64().ok_or_else(|| "bad item".to_string());
+                Ok(ItemSpec { tc: g(0)?, len: g(1)? as usize, declared: g(2)?, tc_w: g(3)? as usize, len_w: g(4)? as usize })
+            })
+            .collect::<Result<Vec<_>, String>>()?;
+        Ok(Spec {
+            kind: pos(&KINDS, &v["kind"])?,
+            net: pos(&NETS, &v["net"])?,
+            pad: v["pad"].as_u64().ok_or("pad")? as usize,
+            items,
+            trailing: hex::decode(v["trailing"].as_str().unwrap_or("")).map_err(|e| e.to_string())?,
+        })
+    }
+    fn key(&self) -> String {
+        let items: Vec<String> = self
+            .items
+            .iter()
+            .map(|i| {
+                let mut s = format!("{:#x}/{}", i.tc, i.len);
+                if i.deviates() {
+                    s.push_str(&format!("(decl{},w{}:{})", i.declared, i.tc_w, i.len_w));
+                }
+                s
+            })
+            .collect();
+        let tr = if self.trailing.is_empty() { String::new() } else { format!("+{}", hex::encode(&self.trailing)) };
+        format!("container:{}:{}:pad{}:[{}]{}", KINDS[self.kind], NETS[self.net], self.pad, items.join(","), tr)
+    }
+
+    fn padding(&self) -> [u8; 16] {
+        let mut p = [0u8; 16];
+        let h = hrp(self.kind, if self.pad == 1 { (self.net + 1) % 3 } else { self.net }).as_bytes();
+        p[..h.len()].copy_from_slice(h);
+        match self.pad {
+            2 => p[15] ^= 1,
+            3 => p[h.len()] ^= 0x80,
+            _ => {}
+        }
+        p
+    }
+
+    /// The raw (un-jumbled) encoding, or None when a requested CompactSize width cannot hold a value.
+    fn raw(&self) -> Option<Vec<u8>> {
+        let mut raw = Vec::new();
+        for (i, it) in self.items.iter().enumerate() {
+            raw.extend(it.raw(i)?);
+        }
+        raw.extend(&self.trailing);
+        raw.extend(self.padding());
+        Some(raw)
+    }
+
+    /// Independent string encoding. Outside the F4Jumble domain the bytes are left un-jumbled (no
+    /// valid encoding exists; the parser must refuse whatever it is given).
+    fn encode(&self) -> Option<String> {
+        let raw = self.raw()?;
+        let j = refenc::f4jumble(&raw).unwrap_or(raw);
+        Some(refenc::bech32_encode(hrp(self.kind, self.net), &j, Variant::Bech32m))
+    }
+}
+
+#[derive(Clone, Copy, Debug, PartialEq, Eq)]
+pub enum Expect {
+    Accept,
+    Reject(&'static str),
+    /// ZIP 316 / the documentation do not settle it; only the accepted-implies clauses are checked.
+    Either(&'static str),
+}
+
+/// ZIP 316 well-formedness, written from the specification.
+pub fn expect(spec: &Spec) -> Expect {
+    let raw_len = match spec.raw() {
+        Some(r) => r.len(),
+        None => return Expect::Reject("unencodable"),
+    };
+    if !(refenc::F4_MIN..=refenc::F4_MAX).contains(&raw_len) {
+        return Expect::Reject("f4jumble-length");
+    }
+    if spec.pad != 0 {
+        return Expect::Reject("padding");
+    }
+    if !spec.trailing.is_empty() {
+        return Expect::Reject("trailing-bytes");
+    }
+    if spec.items.iter().any(|i| i.deviates()) {
+        return Expect::Reject("item-encoding");
+    }
+    if spec.items.iter().any(|i| i.tc > MAX_TYPECODE) {
+        return Expect::Reject("typecode-range");
+    }
+    for i in &spec.items {
+        match known_len(spec.kind, i.tc) {
+            Some(None) => return Expect::Reject("p2sh-in-viewing-key"),
+            Some(Some(n)) if n != i.len => return Expect::Reject("item-length"),
+            _ => {}
+        }
+    }
+    if spec.items.windows(2).any(|w| w[0].tc == w[1].tc) {
+        return Expect::Reject("duplicate-typecode");
+    }
+    if spec.items.windows(2).any(|w| w[0].tc > w[1].tc) {
+        return Expect::Reject("typecode-order");
+    }
+    let has = |tc: u64| spec.items.iter().any(|i| i.tc == tc);
+    if has(0) && has(1) {
+        return Expect::Reject("p2pkh-and-p2sh");
+    }
+    if spec.items.iter().all(|i| i.tc <= 1) {
+        return Expect::Reject("only-transparent"); // includes the empty container
+    }
+    if !(has(2) || has(3)) {
+        // Only unknown items besides transparent ones. ZIP 316 asks for a shielded item; the crate
+        // documents that it counts unknown typecodes as non-transparent. Either reading is allowed.
+        return Expect::Either("only-unknown-nontransparent");
+    }
+    Expect::Accept
+}
+
+fn unified_err_class(e: &unified::ParseError) -> &'static str {
+    match e {
+        unified::ParseError::BothP2phkAndP2sh => "both",
+        unified::ParseError::DuplicateTypecode(_) => "duplicate",
+        unified::ParseError::InvalidTypecodeValue(_) => "typecode-value",
+        unified::ParseError::InvalidEncoding(_) => "invalid-encoding",
+        unified::ParseError::InvalidTypecodeOrder => "order",
+        unified::ParseError::OnlyTransparent => "only-transparent",
+        unified::ParseError::NotUnified => "not-unified",
+        unified::ParseError::UnknownPrefix(_) => "unknown-prefix",
+    }
+}
+
+struct Decoded {
+    net: NetworkType,
+    items: Vec<Vec<u8>>,
+    reencoded: String,
+    reconstructed_equal: bool,
+}
+
+fn decode_as<C: Encoding + Container + PartialEq>(s: &str) -> Result<Decoded, unified::ParseError> {
+    let (net, c) = C::decode(s)?;
+    let items = c.items_as_parsed().iter().map(|i| i.typed_encoding()).collect();
+    let reencoded = c.encode(&net);
+    // documented: a container can be rebuilt from its items (any order)
+    let reconstructed_equal = matches!(C::try_from_items(c.items()), Ok(c2) if c2 == c);
+    Ok(Decoded { net, items, reencoded, reconstructed_equal })
+}
+
+fn decode_kind(kind: usize, s: &str) -> Result<Decoded, unified::ParseError> {
+    match kind {
+        0 => decode_as::<unified::Address>(s),
+        1 => decode_as::<unified::Ufvk>(s),
+        _ => decode_as::<unified::Uivk>(s),
+    }
+}
+
+/// One container case against the real decoder. Ok(outcome class) or Err(violation).
+pub fn check_container(spec: &Spec) -> Result<String, String> {
+    let exp = expect(spec);
+    let s = match spec.encode() {
+        Some(s) => s,
+        None => return Ok("skipped:unencodable".into()),
+    };
+    let got = catch(|| decode_kind(spec.kind, &s)).map_err(|p| format!("decode panicked: {p}"))?;
+    let outcome = match (&got, exp) {
+        (Ok(_), Expect::Reject(why)) => return Err(format!("accepted a container ZIP 316 forbids ({why}): {}", short(&s))),
+        (Err(e), Expect::Accept) => return Err(format!("rejected a well-formed container with {e:?}: {}", short(&s))),
+        (Err(e), Expect::Reject(why)) => format!("reject:{why}:{}", unified_err_class(e)),
+        (Err(e), Expect::Either(why)) => format!("either-rejected:{why}:{}", unified_err_class(e)),
+        (Ok(d), _) => {
+            if d.net != net_type(spec.net) {
+                return Err(format!("decoded network {:?} differs from the HRP's network {}", d.net, NETS[spec.net]));
+            }
+            let want: Vec<Vec<u8>> = spec.items.iter().enumerate().map(|(i, it)| it.raw(i).unwrap()).collect();
+            if d.items != want {
+                return Err(format!("items not preserved: decoded {} items {:?}", d.items.len(), d.items.iter().map(hex::encode).collect::<Vec<_>>()));
+            }
+            if d.reencoded != s {
+                return Err(format!("encode(decode(s)) != s: {} vs {}", short(&d.reencoded), short(&s)));
+            }
+            if !d.reconstructed_equal {
+                return Err("try_from_items(items()) does not rebuild the decoded container".into());
+            }
+            if exp == Expect::Accept { "accept".to_string() } else { "either-accepted".to_string() }
+        }
+    };
+    // The general address parser must agree for unified addresses.
+    if spec.kind == 0 {
+        let z = catch(|| zcash_address::ZcashAddress::try_from_encoded(&s)).map_err(|p| format!("ZcashAddress parse panicked: {p}"))?;
+        match (&z, got.is_ok()) {
+            (Ok(z), true) => {
+                let e = catch(|| z.encode()).map_err(|p| format!("ZcashAddress encode panicked: {p}"))?;
+                if e != s {
+                    return Err("ZcashAddress re-encodes the unified address differently".into());
+                }
+            }
+            (Err(_), false) => {}
+            _ => return Err(format!("ZcashAddress::try_from_encoded ({:?}) disagrees with unified::Address::decode ({})", z.as_ref().err(), got.is_ok())),
+        }
+    }
+    Ok(outcome)
+}
+
+fn short(s: &str) -> String {
+    if s.len() <= 160 {
+        s.to_string()
+    } else {
+        format!("{}…{} ({} chars)", &s[..60], &s[s.len() - 20..], s.len())
+    }
+}
+
+/// `try_from_items` on an arbitrary-order item list: Ok iff the multiset is well-formed; the result
+/// encodes to the independent encoding of the sorted items and decodes back.
+pub fn check_ctor(kind: usize, tcs: &[u64], net: usize) -> Result<String, String> {
+    let specs: Vec<ItemSpec> = tcs.iter().map(|&tc| ItemSpec::plain(tc, known_len(kind, tc).map(|l| l.unwrap_or(20)).unwrap_or(unknown_default_len(tc)))).collect();
+    check_ctor_items(kind, &specs, net)
+}
+
+/// Same, with explicit item lengths (which must be the correct ones for known typecodes).
+pub fn check_ctor_items(kind: usize, specs: &[ItemSpec], net: usize) -> Result<String, String> {
+    // build typed items; P2SH cannot be expressed in viewing keys, typecodes above the range are not values
+    fn arr<const N: usize>(d: &[u8]) -> [u8; N] {
+        d.try_into().unwrap()
+    }
+    let mut sorted: Vec<(usize, &ItemSpec)> = specs.iter().enumerate().collect();
+    sorted.sort_by_key(|(_, i)| i.tc); // stable: equal typecodes keep input order (all such cases are rejected)
+    let canon = Spec { kind, net, pad: 0, items: vec![], trailing: vec![] };
+    let mut raw = Vec::new();
+    for (orig, it) in &sorted {
+        raw.extend(it.raw(*orig).unwrap());
+    }
+    raw.extend(canon.padding());
+    let exp = {
+        let s = Spec { items: sorted.iter().map(|(_, i)| (*i).clone()).collect(), ..canon.clone() };
+        // expectation of the sorted sequence, with the F4Jumble length of the actual raw bytes
+        match expect(&s) {
+            Expect::Reject("f4jumble-length") => Expect::Either("no-encoding-exists"),
+            e => e,
+        }
+    };
+    let r = catch(|| -> Result<Option<(String, bool)>, unified::ParseError> {
+        macro_rules! go {
+            ($C:ty, $mk:expr) => {{
+                let items: Vec<_> = specs.iter().enumerate().map(|(i, it)| $mk(it, it.data(i))).collect();
+                let c = <$C>::try_from_items(items)?;
+                if !(refenc::F4_MIN..=refenc::F4_MAX).contains(&raw.len()) {
+                    return Ok(None); // no ZIP 316 string exists for this value (F4Jumble is undefined); not encoded here
+                }
+                let s = c.encode(&net_type(net));
+                let back = matches!(<$C>::decode(&s), Ok((n, c2)) if n == net_type(net) && c2 == c);
+                Ok(Some((s, back)))
+            }};
+        }
+        match kind {
+            0 => go!(unified::Address, |it: &ItemSpec, d: Vec<u8>| match it.tc {
+                0 => unified::Receiver::P2pkh(arr(&d)),
+                1 => unified::Receiver::P2sh(arr(&d)),
+                2 => unified::Receiver::Sapling(arr(&d)),
+                3 => unified::Receiver::Orchard(arr(&d)),
+                t => unified::Receiver::Unknown { typecode: t as u32, data: d },
+            }),
+            1 => go!(unified::Ufvk, |it: &ItemSpec, d: Vec<u8>| match it.tc {
+                0 => unified::Fvk::P2pkh(arr(&d)),
+                2 => unified::Fvk::Sapling(arr(&d)),
+                3 => unified::Fvk::Orchard(arr(&d)),
+                t => unified::Fvk::Unknown { typecode: t as u32, data: d },
+            }),
+            _ => go!(unified::Uivk, |it: &ItemSpec, d: Vec<u8>| match it.tc {
+                0 => unified::Ivk::P2pkh(arr(&d)),
+                2 => unified::Ivk::Sapling(arr(&d)),
+                3 => unified::Ivk::Orchard(arr(&d)),
+                t => unified::Ivk::Unknown { typecode: t as u32, data: d },
+            }),
+        }
+    })
+    .map_err(|p| format!("try_from_items/encode panicked: {p}"))?;
+    match (r, exp) {
+        (Ok(_), Expect::Reject(why)) => Err(format!("try_from_items accepted an ill-formed item set ({why})")),
+        (Err(e), Expect::Accept) => Err(format!("try_from_items refused a well-formed item set: {e:?}")),
+        (Err(e), _) => Ok(format!("ctor-reject:{}", unified_err_class(&e))),
+        (Ok(None), _) => Ok("ctor-accept:no-encoding-exists".into()),
+        (Ok(Some((s, back))), _) => {
+            let want = refenc::bech32_encode(hrp(kind, net), &refenc::f4jumble(&raw).ok_or("reference jumble failed")?, Variant::Bech32m);
+            if s != want {
+                return Err(format!("encode() differs from the independent encoding of the sorted items: {} vs {}", short(&s), short(&want)));
+            }
+            if !back {
+                return Err("decode(encode(c)) != c".into());
+            }
+            Ok("ctor-accept".into())
+        }
+    }
+}
+
+// ---------------------------------------------------------------------------------------------
+// F4Jumble
+// ---------------------------------------------------------------------------------------------
+
+pub const PATTERNS: usize = 5;
+
+fn pattern(p: usize, len: usize) -> Vec<u8> {
+    match p {
+        0 => vec![0u8; len],
+        1 => vec![0xffu8; len],
+        2 => (0..len).map(|i| (i % 251) as u8).collect(),
+        3 => {
+            let mut v = vec![0u8; len];
+            SplitMix(len as u64 ^ 0xC10).fill(&mut v);
+            v
+        }
+        _ => {
+            let mut v = vec![0u8; len];
+            if len > 0 {
+                v[len - 1] = 1;
+                v[0] ^= 0x80;
+            }
+            v
+        }
+    }
+}
+
+pub fn check_f4(len: usize, p: usize) -> Result<&'static str, String> {
+    let m = pattern(p, len);
+    let valid = (refenc::F4_MIN..=refenc::F4_MAX).contains(&len);
+    let r = catch(|| -> Result<&'static str, String> {
+        let fwd = f4jumble::f4jumble(&m);
+        let inv = f4jumble::f4jumble_inv(&m);
+        let mut a = m.clone();
+        let fwd_mut = f4jumble::f4jumble_mut(&mut a);
+        let mut b = m.clone();
+        let inv_mut = f4jumble::f4jumble_inv_mut(&mut b);
+        if !valid {
+            if fwd.is_ok() || inv.is_ok() || fwd_mut.is_ok() || inv_mut.is_ok() {
+                return Err(format!("length {len} is outside 48..=4194368 but was not refused"));
+            }
+            if a != m || b != m {
+                return Err(format!("length {len}: the in-place variant modified the message although it failed"));
+            }
+            return Ok("invalid-length-refused");
+        }
+        let (fwd, inv) = match (fwd, inv, fwd_mut, inv_mut) {
+            (Ok(f), Ok(i), Ok(()), Ok(())) => (f, i),
+            _ => return Err(format!("valid length {len} refused")),
+        };
+        if fwd.len() != len || inv.len() != len {
+            return Err(format!("length {len} not preserved"));
+        }
+        if a != fwd || b != inv {
+            return Err(format!("length {len}: in-place and allocating variants differ"));
+        }
+        let rf = refenc::f4jumble(&m).ok_or("reference refused a valid length")?;
+        if fwd != rf {
+            return Err(format!("length {len}, pattern {p}: f4jumble differs from the ZIP 316 definition (first difference at byte {})", first_diff(&fwd, &rf)));
+        }
+        let ri = refenc::f4jumble_inv(&m).ok_or("reference refused a valid length")?;
+        if inv != ri {
+            return Err(format!("length {len}, pattern {p}: f4jumble_inv differs from the ZIP 316 definition (first difference at byte {})", first_diff(&inv, &ri)));
+        }
+        match f4jumble::f4jumble_inv(&fwd) {
+            Ok(x) if x == m => {}
+            _ => return Err(format!("length {len}, pattern {p}: inv(f(m)) != m")),
+        }
+        match f4jumble::f4jumble(&inv) {
+            Ok(x) if x == m => {}
+            _ => return Err(format!("length {len}, pattern {p}: f(inv(m)) != m")),
+        }
+        if len >= 64 && fwd == m {
+            return Err(format!("length {len}: the transform is the identity on pattern {p}"));
+        }
+        Ok("bijection-ok")
+    });
+    match r {
+        Ok(x) => x,
+        Err(p) => Err(format!("panic: {p}")),
+    }
+}
+
+fn first_diff(a: &[u8], b: &[u8]) -> usize {
+    a.iter().zip(b).position(|(x, y)| x != y).unwrap_or(a.len().min(b.len()))
+}
+
+// ---------------------------------------------------------------------------------------------
+// Self-test of the independent encoders (machinery, not a verdict)
+// ---------------------------------------------------------------------------------------------
+
+fn self_test(run: &Run) {
+    // ZIP 316 / f4jumble crate documentation vector
+    let j = refenc::f4jumble(b"The package from Alice arrives tomorrow morning.").map(hex::encode);
+    run.require(
+        j.as_deref() == Some("861c51ee746b0313476967a3483e7e1ff77a2952a17d3ed9e0ab0f502e1179430322da9967b613545b1c36353046ca27"),
+        "reference F4Jumble does not reproduce the published vector",
+    );
+    // BIP 173 / BIP 350 vectors via the bech32 crate's plain checksums
+    for (d, v) in [(&[0u8, 1, 2, 250, 255][..], Variant::Bech32), (&[7u8; 43][..], Variant::Bech32m), (&[][..], Variant::Bech32m)] {
+        let mine = refenc::bech32_encode("zs", d, v);
+        let theirs = match v {
+            Variant::Bech32 => bech32::encode::<bech32::Bech32>(bech32::Hrp::parse_unchecked("zs"), d),
+            Variant::Bech32m => bech32::encode::<bech32::Bech32m>(bech32::Hrp::parse_unchecked("zs"), d),
+        };
+        run.require(Ok(mine) == theirs.map_err(|_| ()), "reference Bech32 encoder disagrees with the bech32 crate");
+    }
+    let b = refenc::base58check(&[0x1c, 0xb8, 1, 2, 3, 4, 5, 6, 7, 8, 9, 10, 11, 12, 13, 14, 15, 16, 17, 18, 19, 20]);
+    let t = bs58::encode([0x1c, 0xb8, 1, 2, 3, 4, 5, 6, 7, 8, 9, 10, 11, 12, 13, 14, 15, 16, 17, 18, 19, 20]).with_check().into_string();
+    run.require(b == t, "reference Base58Check encoder disagrees with bs58");
+}
+
+// ---------------------------------------------------------------------------------------------
+// Enumeration
+// ---------------------------------------------------------------------------------------------
+
+fn sequences(alpha: &[u64], maxlen: usize) -> Vec<Vec<u64>> {
+    let mut all: Vec<Vec<u64>> = vec![vec![]];
+    let mut level: Vec<Vec<u64>> = vec![vec![]];
+    for _ in 0..maxlen {
+        let mut next = Vec::with_capacity(level.len() * alpha.len());
+        for s in &level {
+            for &x in alpha {
+                let mut t = s.clone();
+                t.push(x);
+                next.push(t);
+            }
+        }
+        all.extend(next.iter().cloned());
+        level = next;
+    }
+    all
+}
+
+fn len_variants(kind: usize, tc: u64) -> Vec<usize> {
+    match known_len(kind, tc) {
+        Some(l) => {
+            let n = l.unwrap_or(20);
+            vec![n, n - 1, n + 1, 0]
+        }
+        None => vec![unknown_default_len(tc)],
+    }
+}
+
+struct Local {
+    n: u64,
+    outcomes: BTreeMap<String, u64>,
+}
+impl Local {
+    fn new() -> Local {
+        Local { n: 0, outcomes: BTreeMap::new() }
+    }
+    fn flush(self, run: &Run) {
+        run.eval_distinct(self.n);
+        for (k, v) in self.outcomes {
+            run.outcome_n(&k, v);
+        }
+    }
+    fn container(&mut self, run: &Run, spec: &Spec) {
+        self.n += 1;
+        match check_container(spec) {
+            Ok(o) => *self.outcomes.entry(format!("container:{o}")).or_insert(0) += 1,
+            Err(m) => run.fail("container", spec.key(), m, spec.to_json()),
+        }
+    }
+}
+
+/// `lens`: sequence lengths swept; `full_pad_upto`: sequences up to this length get all 4 padding variants
+/// unconditionally, longer ones get the 3 wrong paddings only where the container is otherwise well-formed.
+fn sweep_containers(run: &Run, label: &str, alpha: &[u64], lens: std::ops::RangeInclusive<usize>, full_pad_upto: usize) {
+    let maxlen = *lens.end();
+    let seqs: Vec<Vec<u64>> = sequences(alpha, maxlen).into_iter().filter(|s| lens.contains(&s.len())).collect();
+    run.section(&format!("typecode_alphabet_{label}"), json!(alpha.iter().map(|t| format!("{t:#x}")).collect::<Vec<_>>()));
+    run.section(&format!("typecode_sequences_{label}"), json!({"lengths": format!("{lens:?}"), "count": seqs.len(), "all_paddings_up_to_length": full_pad_upto}));
+    // one pass per sequence length, shortest first, so that the recorded counterexamples are the shortest ones
+    for len in lens.clone() {
+      let level: Vec<&Vec<u64>> = seqs.iter().filter(|s| s.len() == len).collect();
+      level.par_iter().for_each(|seq| {
+        let seq: &Vec<u64> = seq;
+        let mut loc = Local::new();
+        for kind in 0..3 {
+            let opts: Vec<Vec<usize>> = seq.iter().map(|&tc| len_variants(kind, tc)).collect();
+            let total: usize = opts.iter().map(|o| o.len()).product();
+            for mut code in 0..total {
+                let mut items = Vec::with_capacity(seq.len());
+                for (i, &tc) in seq.iter().enumerate() {
+                    let o = &opts[i];
+                    items.push(ItemSpec::plain(tc, o[code % o.len()]));
+                    code /= o.len();
+                }
+                for net in 0..3 {
+                    let right = Spec { kind, net, pad: 0, items: items.clone(), trailing: vec![] };
+                    // Quick tier, length-4 sequences only: the three wrong paddings are applied where the
+                    // container is otherwise well-formed (elsewhere it is refused for another reason too).
+                    let all_pads = seq.len() <= full_pad_upto || !matches!(expect(&right), Expect::Reject(_));
+                    loc.container(run, &right);
+                    if all_pads {
+                        for pad in 1..4 {
+                            loc.container(run, &Spec { pad, ..right.clone() });
+                        }
+                    }
+                }
+            }
+            // constructor on the same sequence (correct lengths only; P2SH is not a viewing-key item and
+            // typecodes above the range are not values of the item types)
+            if seq.iter().all(|&tc| tc <= MAX_TYPECODE && !(kind > 0 && tc == 1)) {
+                for net in 0..3 {
+                    loc.n += 1;
+                    match check_ctor(kind, seq, net) {
+                        Ok(o) => *loc.outcomes.entry(format!("ctor:{o}")).or_insert(0) += 1,
+                        Err(m) => run.fail(
+                            "ctor",
+                            format!("ctor:{}:{}:{:?}", KINDS[kind], NETS[net], seq),
+                            m,
+                            json!({"kind": KINDS[kind], "net": NETS[net], "tcs": seq}),
+                        ),
+                    }
+                }
+            }
+        }
+        loc.flush(run);
+      });
+    }
+}
+
+/// Encoding deviations on otherwise well-formed containers: every item position x {non-canonical
+/// CompactSize widths for typecode and length, declared length off by one / huge on the last item},
+/// and trailing partial items.
+fn sweep_deviations(run: &Run, alpha: &[u64]) {
+    let bases: Vec<Vec<u64>> = sequences(alpha, 3).into_iter().filter(|s| !s.is_empty()).collect();
+    bases.par_iter().for_each(|seq| {
+        let mut loc = Local::new();
+        for kind in 0..3 {
+            let base: Vec<ItemSpec> = seq.iter().map(|&tc| ItemSpec::plain(tc, len_variants(kind, tc)[0])).collect();
+            let base_spec = Spec { kind, net: 0, pad: 0, items: base.clone(), trailing: vec![] };
+            if !matches!(expect(&base_spec), Expect::Accept | Expect::Either(_)) {
+                continue;
+            }
+            for net in 0..3 {
+                for pos in 0..base.len() {
+                    for w in [1usize, 3, 5, 9] {
+                        for field in 0..2 {
+                            let mut items = base.clone();
+                            if field == 0 {
+                                items[pos].tc_w = w;
+                            } else {
+                                items[pos].len_w = w;
+                            }
+                            let spec = Spec { kind, net, pad: 0, items, trailing: vec![] };
+                            if spec.items[pos].deviates() && spec.raw().is_some() {
+                                loc.container(run, &spec);
+                            }
+                        }
+                    }
+                }
+                let last = base.len() - 1;
+                let l = base[last].len as u64;
+                let mut decls = vec![l + 1, l.wrapping_sub(1), MAX_TYPECODE, MAX_TYPECODE + 1, u32::MAX as u64, u64::MAX - 15, u64::MAX];
+                decls.sort();
+                decls.dedup();
+                for declared in decls {
+                    let mut items = base.clone();
+                    items[last].declared = declared;
+                    loc.container(run, &Spec { kind, net, pad: 0, items, trailing: vec![] });
+                }
+                for trailing in [vec![0x02u8], vec![0x04], vec![0x04, 0x05, 0xaa], vec![0xfd], vec![0xfd, 0x00], vec![0xff; 9], vec![0xfe, 0x01, 0x00, 0x00, 0x02]] {
+                    loc.container(run, &Spec { kind, net, pad: 0, items: base.clone(), trailing });
+                }
+            }
+        }
+        loc.flush(run);
+    });
+}
+
+/// Unknown-item length lattice (CompactSize width boundaries of the length field, F4Jumble lower
+/// bound) and the upper size limits (F4Jumble maximum, Bech32 code length).
+fn sweep_sizes(run: &Run, tier: Tier) {
+    let mut specs = Vec::new();
+    let lens: Vec<usize> = vec![0, 1, 27, 28, 29, 30, 31, 32, 251, 252, 253, 254, 65535, 65536, 65537];
+    for kind in 0..3 {
+        for net in 0..3 {
+            for &l in &lens {
+                for tc in [4u64, 0xffff, MAX_TYPECODE] {
+                    if l == unknown_default_len(tc) {
+                        continue; // already a case of the main sweep
+                    }
+                    // alone (raw length 18 + l crosses the F4Jumble minimum of 48 at l = 30) and after a Sapling item
+                    specs.push(Spec { kind, net, pad: 0, items: vec![ItemSpec::plain(tc, l)], trailing: vec![] });
+                    specs.push(Spec { kind, net, pad: 0, items: vec![ItemSpec::plain(2, len_variants(kind, 2)[0]), ItemSpec::plain(tc, l)], trailing: vec![] });
+                }
+            }
+        }
+    }
+    // Upper limits, unified address on mainnet: Sapling (45 bytes) + unknown(4) with a 5-byte length field + padding.
+    let over = |raw_total: usize| raw_total - 16 - 45 - 1 - 5;
+    let mut big = vec![over(refenc::F4_MAX - 1), over(refenc::F4_MAX), over(refenc::F4_MAX + 1)];
+    // the Bech32 string of n raw bytes has 1 + 1 + ceil(8n/5) + 6 characters for HRP "u"; 4194368 characters is
+    // the other constant in the code (Bech32mZip316::CODE_LENGTH)
+    let n_at_code_len = (4_194_368usize - 8) * 5 / 8;
+    big.extend([over(n_at_code_len - 1), over(n_at_code_len), over(n_at_code_len + 1), over(n_at_code_len + 2)]);
+    if tier == Tier::Thorough {
+        big.extend([over(1 << 20), over(3 << 20)]);
+    }
+    for l in big {
+        specs.push(Spec { kind: 0, net: 0, pad: 0, items: vec![ItemSpec::plain(2, 43), ItemSpec::plain(4, l)], trailing: vec![] });
+    }
+    run.section("size_cases", json!(specs.len()));
+    specs.par_iter().for_each(|spec| {
+        let mut loc = Local::new();
+        loc.container(run, spec);
+        // the value-side of the same case: construct, encode, decode
+        if spec.items.iter().all(|i| known_len(spec.kind, i.tc).map(|l| l == Some(i.len)).unwrap_or(i.tc <= MAX_TYPECODE)) {
+            loc.n += 1;
+            match check_ctor_items(spec.kind, &spec.items, spec.net) {
+                Ok(o) => *loc.outcomes.entry(format!("ctor:{o}")).or_insert(0) += 1,
+                Err(m) => run.fail("ctor-items", format!("ctor-{}", spec.key()), m, spec.to_json()),
+            }
+        }
+        loc.flush(run);
+    });
+}
+
+fn sweep_f4(run: &Run, tier: Tier) {
+    let dense_to = tier.pick(2048usize, 32_768usize);
+    let mut lens: Vec<usize> = (0..=dense_to).collect();
+    // j's second personalisation byte becomes non-zero at l_R > 256*64; the domain edges
+    lens.extend([16_447, 16_448, 16_449, 16_511, 16_512, 16_513, 65_535, 65_536, 65_537, 65_599, 65_600, 65_601]);
+    lens.extend([refenc::F4_MAX - 64, refenc::F4_MAX - 1, refenc::F4_MAX, refenc::F4_MAX + 1, refenc::F4_MAX + 64]);
+    if tier == Tier::Thorough {
+        let mut p = 32_768usize;
+        while p < refenc::F4_MAX {
+            lens.extend([p - 1, p, p + 1, p + 63, p + 64, p + 65]);
+            p *= 2;
+        }
+    }
+    lens.sort();
+    lens.dedup();
+    run.section("f4jumble_lengths", json!({"dense": format!("0..={dense_to}"), "total": lens.len(), "patterns": PATTERNS}));
+    let cases: Vec<(usize, usize)> = lens.iter().flat_map(|&l| (0..PATTERNS).map(move |p| (l, p))).collect();
+    // longest first, one case per task: the multi-megabyte lengths dominate the cost
+    let mut cases = cases;
+    cases.sort_by(|a, b| b.0.cmp(&a.0));
+    cases.par_iter().with_max_len(1).for_each(|&(len, p)| {
+        let mut loc = Local::new();
+        loc.n += 1;
+        match check_f4(len, p) {
+            Ok(o) => *loc.outcomes.entry(format!("f4:{o}")).or_insert(0) += 1,
+            Err(m) => run.fail("f4", format!("f4:len{len}:pattern{p}"), m, json!({"len": len, "pattern": p})),
+        }
+        loc.flush(run);
+    });
+}
+
+pub fn replay(kind: &str, case: &Value) -> Result<(), String> {
+    match kind {
+        "container" => check_container(&Spec::from_json(case)?).map(|_| ()),
+        "ctor-items" => {
+            let spec = Spec::from_json(case)?;
+            check_ctor_items(spec.kind, &spec.items, spec.net).map(|_| ())
+        }
+        "ctor" => {
+            let k = KINDS.iter().position(|x| Some(*x) == case["kind"].as_str()).ok_or("kind")?;
+            let n = NETS.iter().position(|x| Some(*x) == case["net"].as_str()).ok_or("net")?;
+            let tcs: Vec<u64> = case["tcs"].as_array().ok_or("tcs")?.iter().filter_map(|v| v.as_u64()).collect();
+            check_ctor(k, &tcs, n).map(|_| ())
+        }
+        "f4" => check_f4(case["len"].as_u64().ok_or("len")? as usize, case["pattern"].as_u64().ok_or("pattern")? as usize).map(|_| ()),
+        "string" => strings::check_string(case["s"].as_str().ok_or("s")?).map(|_| ()),
+        "seed" => strings::check_seed(case["seed"].as_u64().ok_or("seed")? as usize).map(|_| ()),
+        "typed-seed" => strings::check_typed_seed(case["seed"].as_u64().ok_or("seed")? as usize, case["net"].as_u64().ok_or("net")? as usize).map(|_| ()),
+        "network" => strings::check_network(case["seed"].as_u64().ok_or("seed")? as usize, case["target"].as_u64().ok_or("target")? as usize).map(|_| ()),
+        _ => Err(format!("unknown kind {kind}")),
+    }
+}
+
+pub fn run(args: &Args) -> i32 {
+    let run = Run::new(args, "exploration");
+    run.set_rule(
+        "containers: every typecode sequence of length 0..=4 over the typecode alphabet (8 symbols quick, 11 thorough) x every \
+         combination of item-length variants {correct,-1,+1,0} of the known items x {Address,Ufvk,Uivk} x 3 networks x 4 padding \
+         variants (quick tier: for length-4 sequences the 3 wrong paddings only where the container is otherwise well-formed; thorough \
+         tier: additionally every length-5 sequence over the 8-symbol alphabet with that same padding reduction), plus every constructor call on \
+         the same sequences, every single encoding deviation (CompactSize width, declared length, trailing bytes) of every well-formed \
+         sequence of length <=3, an unknown-item length lattice and the size limits; F4Jumble: every listed length x 5 patterns; \
+         strings: every listed mutation of every seed string. A case is distinct by its generating tuple (all tuples differ in the \
+         string fed to the parser) and non-trivial because every one is a full decode of a checksummed string",
+    );
+    run.assume("ZIP 316 asks for at least one shielded item; the crate documents that unknown typecodes count as non-transparent. Containers whose only non-transparent items are unknown may be accepted or refused; if accepted the preservation and re-encoding clauses are checked");
+    run.assume("item payloads are not validated by the container codec (only lengths), so payloads are arbitrary non-zero filler");
+    run.assume("a container whose raw encoding is shorter than 48 or longer than 4194368 bytes has no ZIP 316 string; whatever is presented with such content must be refused");
+    run.assume("canonical form of an accepted string = Unicode-trimmed, and for an all-upper-case Bech32 string its lower-case form (BIP 173); testnet/regtest share Base58 prefixes and such strings decode as testnet (documented)");
+    run.assume("BLAKE2b (blake2b_simd), SHA-256 (sha2) are trusted; the independent Bech32/Base58Check encoders are cross-checked against the bech32 and bs58 crates at start-up");
+    self_test(&run);
+
+    let alpha: Vec<u64> = match args.tier {
+        Tier::Quick => vec![0, 1, 2, 3, 4, 0xffff, MAX_TYPECODE, MAX_TYPECODE + 1],
+        Tier::Thorough => vec![0, 1, 2, 3, 4, 0xfc, 0xfd, 0xffff, 0x10000, MAX_TYPECODE, MAX_TYPECODE + 1],
+    };
+    sweep_containers(&run, "main", &alpha, 0..=4, args.tier.pick(3, 4));
+    if args.tier == Tier::Thorough {
+        // one level deeper over the base alphabet
+        sweep_containers(&run, "depth5", &[0, 1, 2, 3, 4, 0xffff, MAX_TYPECODE, MAX_TYPECODE + 1], 5..=5, 0);
+    }
+    run.section("t_containers_s", json!(run.elapsed()));
+    sweep_deviations(&run, &[0, 1, 2, 3, 4, 0xffff, MAX_TYPECODE]);
+    sweep_sizes(&run, args.tier);
+    run.section("t_deviations_sizes_s", json!(run.elapsed()));
+    sweep_f4(&run, args.tier);
+    run.section("t_f4_s", json!(run.elapsed()));
+    strings::sweep(&run, args.tier);
+
+    // Observation only (no verdict): item values that are not well-formed ZIP 316 items can be built through the public
+    // enum fields; the constructor documents three invariants and does not look at typecode range or payload length.
+    let obs = catch(|| {
+        let c = unified::Address::try_from_items(vec![unified::Receiver::Sapling([1; 43]), unified::Receiver::Unknown { typecode: 0x0200_0001, data: vec![7; 4] }]).ok()?;
+        let s = c.encode(&NetworkType::Main);
+        Some(unified::Address::decode(&s).is_ok())
+    });
+    run.section(
+        "observation_unknown_item_with_out_of_range_typecode",
+        json!({"input": "try_from_items([Sapling, Unknown{typecode: 0x02000001}]).encode()", "constructed_and_decodes_back": format!("{obs:?}"),
+               "note": "Some(false): the constructor accepts it and encode() yields a string its own decoder refuses; such a typecode is not a ZIP 316 value, so the round-trip clause is not applied"}),
+    );
+    run.sample(json!({"container": "address/main [0x2/43, 0x0/20]", "expected": "reject (typecode order)"}));
+    run.sample(json!({"container": "ufvk/test [0x1/20, 0x2/128]", "expected": "reject (P2SH in a viewing key)"}));
+    run.sample(json!({"container": "address/main pad=other network [0x3/43]", "expected": "reject (padding)"}));
+    run.sample(json!({"f4": "len 47", "expected": "all four entry points refuse; in-place buffers untouched"}));
+    run.require(run.outcomes_distinct() >= 30 || run.failure_count() > 0, "fewer than 30 distinct outcome classes observed");
+    run.finish(&replay)
 }
